@@ -54,7 +54,7 @@ type verifC45Repo struct {
 
 var errVerifC45Load = errors.New("blob load failed")
 
-func (r *verifC45Repo) LoadBlob(_ context.Context, h restic.BlobHandle, _ []byte) ([]byte, error) {
+func (r *verifC45Repo) LoadBlob(_ context.Context, h restic.BlobHandle, buf []byte) ([]byte, error) {
 	verifrt.Assert(h.Type == restic.DataBlob, "file content loaded with a non-data blob type")
 	k := int(h.ID[0]) - 0x80
 	verifrt.Assert(k >= 0 && k < len(r.blobs) && h.ID == verifC45BlobID(k), "LoadBlob called for an ID that is not in the file's content")
@@ -75,7 +75,14 @@ func (r *verifC45Repo) LoadBlob(_ context.Context, h restic.BlobHandle, _ []byte
 	if k == r.fail {
 		return nil, errVerifC45Load
 	}
-	return r.blobs[k], nil
+	// like Repository.LoadBlob: the caller's buffer is reused when it is large enough, otherwise a new
+	// one is allocated; the result never aliases the repository's own data
+	if cap(buf) >= len(r.blobs[k]) {
+		buf = buf[:len(r.blobs[k])]
+		copy(buf, r.blobs[k])
+		return buf, nil
+	}
+	return append([]byte(nil), r.blobs[k]...), nil
 }
 func (r *verifC45Repo) LookupBlobSize(restic.BlobHandle) (uint, bool) { return 0, false }
 func (r *verifC45Repo) Connections() uint                             { return r.conns }
@@ -96,10 +103,18 @@ func (s *verifC45Sink) Write(p []byte) (int, error) {
 // every completion order of the concurrent loads; a failing load makes WriteNode fail and what was
 // written is a prefix of the content.
 func VerifC45_WriteNode() {
-	D := verifrt.Param("distinct", 2)
-	N := verifrt.Param("content", 3)
-	L := verifrt.Param("bloblen", 2)
-	repo := &verifC45Repo{fail: -1, conns: uint(verifrt.Param("connections", 2)), loads: make([]int, D), async: true}
+	verifC45WriteNode(verifrt.Param("distinct", 2), verifrt.Param("content", 3), verifrt.Param("bloblen", 2), verifrt.Param("connections", 2), verifrt.Param("allow_fail", 1))
+}
+
+// VerifC45_WriteNodeSerial: the same with one backend connection (loads strictly one after the other,
+// so an earlier blob is completely written before the next load starts) and one more content entry:
+// the shape in which a buffer handed back to a loader could still be referenced by the blob cache.
+func VerifC45_WriteNodeSerial() {
+	verifC45WriteNode(verifrt.Param("distinct", 2), verifrt.Param("content", 3), verifrt.Param("bloblen", 2), 1, 1)
+}
+
+func verifC45WriteNode(D, N, L, conns, allowFail int) {
+	repo := &verifC45Repo{fail: -1, conns: uint(conns), loads: make([]int, D), async: true}
 	for k := 0; k < D; k++ {
 		repo.blobs = append(repo.blobs, verifrt.BytesN("blob", 1+k%L))
 	}
@@ -112,7 +127,7 @@ func VerifC45_WriteNode() {
 		content[i] = verifC45BlobID(idx[i])
 		want = append(want, repo.blobs[idx[i]]...)
 	}
-	if verifrt.Param("allow_fail", 1) != 0 {
+	if allowFail != 0 {
 		repo.fail = verifC45Pick("fail", -1, D-1)
 	}
 	failing := false
@@ -128,7 +143,11 @@ func VerifC45_WriteNode() {
 	err := d.WriteNode(context.Background(), node)
 
 	verifrt.Assert(repo.inflight == 0, "a blob loader is still running after WriteNode returned")
-	verifrt.Assert(repo.maxfly <= int(repo.conns), "more concurrent blob loads than backend connections")
+	if !failing {
+		// (after a failed load the writer quits and its slot may be taken by one more loader whose
+		// context is already cancelled; the connection limit is C37's subject, not part of C45)
+		verifrt.Assert(repo.maxfly <= int(repo.conns), "more concurrent blob loads than backend connections")
+	}
 	if failing {
 		verifrt.Reach("load-fails")
 		verifrt.Assert(err != nil, "WriteNode reports success although a blob could not be loaded")
